@@ -1,6 +1,8 @@
 package sim
 
 import (
+	"time"
+
 	"pgregory.net/rapid"
 )
 
@@ -92,4 +94,75 @@ func (m *Machine) PrepareLastTasks(t *rapid.T) {
 		m.settle("finish")
 		m.afterStep()
 	}
+}
+
+// ActCancelWhileCompleting sends a cancel request for a job at the instant between the end of its last task
+// and the report of its completion (its runner is held inside Finish, which the scheduler calls while the job is
+// being completed). The request may be refused (the job is as good as finished) - but if it is acknowledged,
+// the job must end reported as canceled like after any other acknowledged cancel. The request is issued from a
+// goroutine because a runner that completes jobs under its lock makes it wait.
+func (m *Machine) ActCancelWhileCompleting(t *rapid.T) {
+	cands, byJob := m.lastTaskJobs(false)
+	if len(cands) == 0 {
+		t.Skip("no job whose last task is executing")
+	}
+	j := cands[rapid.IntRange(0, len(cands)-1).Draw(t, "completingTarget")]
+	o := byJob[j][0]
+	fails := pct(t, 20, "lastTaskFails")
+	m.w.mu.Lock()
+	o.r.holdFinish = true
+	m.w.mu.Unlock()
+	out := Outcome{Kind: OutOK}
+	if fails {
+		out = Outcome{Kind: OutFail, ExitCode: 1}
+	}
+	m.deliver(o, out)
+	reached := false
+	for deadline := time.Now().Add(5 * time.Second); !reached && time.Now().Before(deadline); {
+		m.w.mu.Lock()
+		reached = o.r.inFinish
+		m.w.mu.Unlock()
+		if !reached {
+			time.Sleep(time.Microsecond)
+		}
+	}
+	if !reached {
+		// the scheduler never came to Finish (should not happen); let it go and judge as usual
+		m.w.mu.Lock()
+		o.r.holdFinish = false
+		o.r.holdCond.Broadcast()
+		m.w.mu.Unlock()
+		m.settle("finish")
+		m.afterStep()
+		return
+	}
+	seq := m.stimulus("cancel #%d while it completes (last task %s)", j.AcceptIdx, map[bool]string{false: "ok", true: "failed"}[fails])
+	res := make(chan error, 1)
+	go func() { res <- m.w.PR.CancelJob(j.ID) }()
+	var err error
+	got := false
+	select {
+	case err = <-res:
+		got = true
+	case <-time.After(3 * time.Millisecond):
+	}
+	m.w.mu.Lock()
+	o.r.holdFinish = false
+	o.r.holdCond.Broadcast()
+	m.w.mu.Unlock()
+	if !got {
+		err = <-res
+	}
+	m.w.tracef("  -> %v", err)
+	if err == nil {
+		if !j.CancelAcked {
+			j.CancelAcked, j.CancelAckedSeq = true, seq
+		}
+		j.AckedWhileCompleting = true
+		m.w.Stats.hit("cancel:acked-while-completing")
+	} else {
+		m.w.Stats.hit("cancel:refused-while-completing")
+	}
+	m.settle("cancel while completing")
+	m.afterStep()
 }
